@@ -28,6 +28,9 @@ import (
 // ClusterSecret is the secret the in-process server is started with.
 const ClusterSecret = "verif-cluster-secret"
 
+// SecretKey is the key the in-process server signs admin tokens with.
+const SecretKey = "verif-token-signing-key"
+
 // Server is the process-wide in-memory server.
 type Server struct {
 	Y    *server.Yorkie
@@ -79,7 +82,7 @@ func Get() *Server {
 				AdminPassword:                 "admin",
 				AdminTokenDuration:            "24h",
 				UseDefaultProject:             true,
-				SecretKey:                     "verif-token-signing-key",
+				SecretKey:                     SecretKey,
 				ClusterSecret:                 ClusterSecret,
 				SnapshotCacheSize:             10,
 				AuthWebhookCacheSize:          100,
@@ -121,7 +124,12 @@ func (s *Server) WaitIdle() {
 // Project returns a (cached) project with the given snapshot settings. tag
 // distinguishes projects that must not share state.
 func (s *Server) Project(interval, threshold int64, tag string) *types.Project {
-	k := fmt.Sprintf("%d/%d/%s", interval, threshold, tag)
+	return s.ProjectWith(interval, threshold, tag, false)
+}
+
+// ProjectWith is Project with the RemoveOnDetach option of the project.
+func (s *Server) ProjectWith(interval, threshold int64, tag string, removeOnDetach bool) *types.Project {
+	k := fmt.Sprintf("%d/%d/%s/%v", interval, threshold, tag, removeOnDetach)
 	s.projMu.Lock()
 	defer s.projMu.Unlock()
 	if p, ok := s.projs[k]; ok {
@@ -136,6 +144,7 @@ func (s *Server) Project(interval, threshold int64, tag string) *types.Project {
 	info, err := s.BE.DB.UpdateProjectInfo(ctx, p.ID, &types.UpdatableProjectFields{
 		SnapshotInterval:  &interval,
 		SnapshotThreshold: &threshold,
+		RemoveOnDetach:    &removeOnDetach,
 	})
 	if err != nil {
 		panic(err)
